@@ -31,7 +31,7 @@ if [ "${MUT_SNAP:-}" != "" ]; then
   # run the COMMITTED machinery (a snapshot of /verif's HEAD under /tmp), so that edits in progress in /verif and
   # this evaluation do not disturb each other; the snapshot is removed afterwards
   vdir=/tmp/verif-snap-$$
-  mkdir -p "$vdir" && git -C /verif archive HEAD | tar -x -C "$vdir"
+  mkdir -p "$vdir" && git -C /verif archive ${MUT_SNAP_REV:-HEAD} | tar -x -C "$vdir"
   trap 'rm -rf "$vdir"; [ -n "${KV_REPO:-}" ] && { git -C /repo worktree remove --force "$tree" 2>/dev/null; git -C /repo worktree prune; } || { cd /repo && git checkout -- . && git clean -fdq klog; }' EXIT
 fi
 cd "$vdir"
